@@ -218,9 +218,15 @@ func Gen(r *fw.RNG, o Opts) *rs.TypeSystem {
 			}
 		case "union-stringprefix":
 			t.Kind, t.UnionRepr = "union", "stringprefix"
-			t.Delim = []string{":", "/"}[r.Intn(2)]
+			// (the empty delimiter is what the schema DSL always produces: the discriminant is then a bare prefix
+			// of the string; a surviving mechanical mutant showed no check ever took that branch)
+			t.Delim = []string{":", "/", ""}[r.Intn(3)]
 			t.Members = []string{"String", "Str1"}
 			t.Discr = map[string]string{"String": "s", "Str1": "t"}
+			if r.Bool() {
+				// longer discriminants, neither a prefix of the other
+				t.Discr = map[string]string{"String": "str", "Str1": "s1-"}
+			}
 			d = 1
 		case "enum-string":
 			t.Kind, t.EnumRepr = "enum", "string"
